@@ -211,6 +211,41 @@ def literal_sentences(ctx):
                         break
 
 
+def fstring_sentences(ctx):
+    """every spelling of an f-string start (prefix letters in both orders and cases) x quote style, on one line and over several lines: accepted
+    strictly, and the text is one fstring node from its start leaf to its end leaf"""
+    import itertools, parso
+    prefixes = set()
+    for base_ in ['f', 'fr', 'rf']:
+        for combo in itertools.product(*[(c, c.upper()) for c in base_]):
+            prefixes.add(''.join(combo))
+    bodies = [('a{b}c', False), ('{b!r:>{w}}', False), ('', False), ('{{}}', False), ('a\n{b}\nc', True), ('{b\n}', True), ('x\\\ny', False)]
+    for v in streams.versions():
+        g = parso.load_grammar(version=v)
+        for pfx in sorted(prefixes):
+            for q in ("'", '"', "'" * 3, '"' * 3):
+                for body, multiline in bodies:
+                    if multiline and len(q) == 1:
+                        continue
+                    lit = pfx + q + body + q
+                    code = 'x = %s\n' % lit
+                    ctx.count('c06-fstrings')
+                    sig = None
+                    try:
+                        m = g.parse(code, error_recovery=False)
+                        nodes = [n for n in preds.iter_nodes(m) if n.type == 'fstring']
+                        if len(nodes) != 1 or nodes[0].get_code(include_prefix=False) != lit or \
+                                nodes[0].children[0].type != 'fstring_start' or nodes[0].children[-1].type != 'fstring_end':
+                            sig = 'C06:fstring-sentence-wrong-tree'
+                    except parso.ParserSyntaxError:
+                        sig = 'C06:fstring-sentence-rejected'
+                    except Exception as e:
+                        sig = preds.crash_sig(e)
+                    if sig:
+                        ctx.violation(sig, dict(kind='input', version=v, input_text=code, observed=sig))
+                        break
+
+
 def run(ctx, b, drv):
     pend = base.Pending(ctx)
     ll1ok = base.obligations(ctx, b, pend, ['LL1.v', 'LL1Inst.v', 'LL1Engine.v', 'EngineSim.v', 'Engine.v', 'Properties/C06.v'] +
@@ -219,6 +254,7 @@ def run(ctx, b, drv):
     # sentences given as TEXT (through the tokenizer): the model pipeline and the implementation must agree, strict and recovering
     base.mismatches(ctx, pend, streams.run_parse(ctx, base.scale(ctx, 500), drv, stream='c06-text', kinds=['semantic', 'valid', 'fstrings', 'derived']), None)
     literal_sentences(ctx)
+    fstring_sentences(ctx)
     per = base.scale(ctx, 60) if ll1ok else base.scale(ctx, 3000)
     TY = ['STRING', 'NUMBER', 'NAME', 'ERRORTOKEN', 'NEWLINE', 'INDENT', 'DEDENT', 'ERROR_DEDENT', 'FSTRING_STRING', 'FSTRING_START',
           'FSTRING_END', 'OP', 'ENDMARKER']
